@@ -116,6 +116,12 @@ func TestSim(t *testing.T) {
 		fmt.Printf("HARNESS-ERROR %v\n", err)
 		os.Exit(2)
 	}
+	// every path the scenario uses is relative to the run's root, so that identifiers derived from
+	// paths (and therefore iteration orders) do not depend on the random name of the scratch directory
+	if err := os.Chdir(root); err != nil {
+		fmt.Printf("HARNESS-ERROR %v\n", err)
+		os.Exit(2)
+	}
 	if os.Getenv("VERIF_LOG") == "" {
 		if dn, err := os.OpenFile(os.DevNull, os.O_WRONLY, 0); err == nil {
 			os.Stderr = dn
@@ -144,7 +150,7 @@ func TestSim(t *testing.T) {
 			}
 			net := NewNet(s)
 			disk := NewDisk(s, root)
-			h := &Harness{T: t, S: s, Net: net, Disk: disk, Tape: tape, R: res, Root: root, Tier: tier, Idx: idx}
+			h := &Harness{T: t, S: s, Net: net, Disk: disk, Tape: tape, R: res, Root: ".", Tier: tier, Idx: idx}
 			verifhook.Impl = &hookImpl{s, disk}
 			http.DefaultTransport = net
 			func() {
